@@ -461,12 +461,12 @@ def run(chk):
     from symex import loader
 
     chk.functions = loader.describe_exprs(['xye.save_xye', 'xye.load_xye', 'xye._deduce_coord', 'xye._generate_xye_header'], {**globals(), **locals()})
-    jobs = [(hv, cg, n) for hv in (True, False) for cg in (None, 'DIM', 'other') for n in ((1, 2) if chk.tier == 'quick' else (1, 2, 3))]
+    jobs = [(hv, cg, n) for hv in (True, False) for cg in (None, 'DIM', 'other') for n in ((1, 2) if chk.tier == 'quick' else (1, 2, 3, 4))]
     run_jobs(chk, job_refusal, jobs)
-    run_jobs(chk, job_roundtrip, [(1, 'path'), (2, 'path'), (3, 'path'), (2, 'file-object')])
-    run_jobs(chk, job_bits, [1, 2])
+    run_jobs(chk, job_roundtrip, [(1, 'path'), (2, 'path'), (3, 'path'), (2, 'file-object')] + ([(4, 'path'), (5, 'path'), (6, 'path'), (1, 'file-object'), (3, 'file-object'), (5, 'file-object')] if chk.tier == 'thorough' else []))
+    run_jobs(chk, job_bits, [1, 2] if chk.tier == 'quick' else [1, 2, 3, 4])
     chk.bounds = {'configuration': 'ndim (symbolic integer), number of coordinates (symbolic, 0..3), masks / dimension-coordinate present / per-coordinate bin-edge and alignment flags (symbolic Booleans); variances present and coord argument (None, dimension-coordinate, another coordinate) enumerated',
-                  'rows': '1..3 with symbolic values'}
+                  'rows': ('1..3' if chk.tier == 'quick' else '1..6') + ' with symbolic values; path and file-object targets'}
     chk.stubs = ['numpy c_/sqrt/savetxt/loadtxt: text layer = identity on doubles given >= 17 significant digits (Matula); a single row is returned 1-d as numpy does',
                  'logger -> no-op', 'DataArray -> stand-in with symbolic structural properties']
     chk.axioms = ['correctly rounded printf/strtod (trusted)', '(1+delta) rounding model for sqrt and square']
